@@ -137,7 +137,7 @@ func (s *Solver) define(sb *strings.Builder, t *Term) {
 		if u.op == OpVar {
 			if !s.declVar[u.name] {
 				s.declVar[u.name] = true
-				fmt.Fprintf(sb, "(declare-const |%s| %s)\n", u.name, sortOf(u.w))
+				fmt.Fprintf(sb, "(declare-const |in:%s| %s)\n", u.name, sortOf(u.w))
 			}
 			continue
 		}
@@ -366,7 +366,7 @@ func parseModel(txt string) (Model, error) {
 		default:
 			return nil, fmt.Errorf("bad model value %q", val)
 		}
-		m[name] = v
+		m[strings.TrimPrefix(name, "in:")] = v
 	}
 	return m, nil
 }
